@@ -52,12 +52,26 @@ def run_probe(src, extra_srcs=(), libs=()):
         shutil.rmtree(tmp, ignore_errors=True)
 
 
-def gen_base64():
-    out = run_probe("base64_probe.c")
-    return _write_if_changed(os.path.join(GEN, "GenBase64.v"), out)
+def write_gen(name, content):
+    """name = file name under coq/gen; returns True when the content changed"""
+    return _write_if_changed(os.path.join(GEN, name), content)
 
 
-GENERATORS = {"base64": gen_base64}
+def _discover():
+    """tools/facts/<name>.py, each with gen(api) -> bool (changed); api is this module"""
+    import importlib.util
+    gens = {}
+    d = os.path.join(VERIF, "tools", "facts")
+    for fn in sorted(os.listdir(d)):
+        if fn.endswith(".py") and not fn.startswith("_"):
+            spec = importlib.util.spec_from_file_location("facts_" + fn[:-3], os.path.join(d, fn))
+            mod = importlib.util.module_from_spec(spec)
+            spec.loader.exec_module(mod)
+            gens[fn[:-3]] = (lambda m: (lambda: m.gen(sys.modules[__name__])))(mod)
+    return gens
+
+
+GENERATORS = _discover()
 
 
 def generate(names=None):
